@@ -4,6 +4,10 @@ import http.server
 import json
 import threading
 
+EXTRA_PROPS = ['C19Seq', 'C19SeqLive', 'C19SeqRuns']
+
+EXTRACT = ['gen.c19seq']
+
 RULE = ("operation sequences (length 1..5) over {authenticate, refresh, validate, invalidate, join, "
         "sign_out} x initial tokens (all 32 present/absent subsets, plus empty-string variants) x "
         "reply status {200,204,400,401,403,404,429,500,503} x body {complete result, result missing "
